@@ -398,6 +398,17 @@ pub fn gen_src(rng: &mut Rng) -> SrcCase {
                 s.push('\n');
             }
             let delta = rng.range(-2, 2);
+            if rng.chance(1, 4) {
+                // nothing but the label, the padding and the reference, which is the LAST word:
+                // d = -(D+2) ; fits iff D+2 <= lim (program of exactly D+2 words)
+                let d = (lim - 2 + delta).max(0);
+                let pad = if d > 0 && rng.chance(1, 2) {
+                    format!(".blkw #{}\n", d)
+                } else {
+                    ".fill x0\n".repeat(d as usize)
+                };
+                return SrcCase { src: format!("far halt\n{}{} far\n", pad, m), kind: "label-distance" };
+            }
             if forward {
                 // d = D ; fits iff D <= lim-1
                 let d = (lim - 1 + delta).max(0);
@@ -633,13 +644,15 @@ use std::sync::{Arc, Mutex};
 
 /// Run one `lace watch` session: save each source in turn over the watched file and collect the
 /// verdict of every re-check (`ok` / `diag` / `none` if no re-check was observed).
-fn watch_session(dir: &Path, sources: &[String], stack: bool) -> Vec<String> {
+/// `stack`: 0 = extension off, 1 = `watch w.asm -f stack`, 2 = `-f stack watch w.asm`
+fn watch_session(dir: &Path, sources: &[String], stack: u8) -> Vec<String> {
     let file = dir.join("w.asm");
     std::fs::write(&file, "halt\n").unwrap();
-    let mut args = vec!["watch", "w.asm"];
-    if stack {
-        args.extend_from_slice(&["-f", "stack"]);
-    }
+    let args = match stack {
+        0 => vec!["watch", "w.asm"],
+        1 => vec!["watch", "w.asm", "-f", "stack"],
+        _ => vec!["-f", "stack", "watch", "w.asm"],
+    };
     let mut child = Command::new(lace_bin())
         .args(&args)
         .current_dir(dir)
@@ -726,13 +739,13 @@ pub fn run_c19w(o: &crate::Opts) {
     let mut sink = crate::Sink::new(o);
     let tmp = TmpDir::new(&format!("c19w-{}", o.shard));
     let dir = tmp.0.clone();
-    let run_one = |dir: &Path, stack: bool, srcs: &[String]| -> String {
+    let run_one = |dir: &Path, stack: u8, srcs: &[String]| -> String {
         let w = watch_session(dir, srcs, stack);
-        let fresh: Vec<String> = srcs.iter().map(|s| check_verdict(dir, s, stack)).collect();
+        let fresh: Vec<String> = srcs.iter().map(|s| check_verdict(dir, s, stack != 0)).collect();
         format!("watch={} fresh={}", w.join(","), fresh.join(","))
     };
-    let req_of = |stack: bool, srcs: &[String]| -> String {
-        let mut s = format!("W19 {} {:x}", stack as u8, srcs.len());
+    let req_of = |stack: u8, srcs: &[String]| -> String {
+        let mut s = format!("W19 {} {:x}", stack, srcs.len());
         for x in srcs {
             s.push(' ');
             s.push_str(&hex(x.as_bytes()));
@@ -743,7 +756,7 @@ pub fn run_c19w(o: &crate::Opts) {
         for line in std::fs::read_to_string(path).unwrap().lines() {
             let f: Vec<&str> = line.split_whitespace().collect();
             let obs = (|| {
-                let stack = *f.get(1)? != "0";
+                let stack: u8 = f.get(1)?.parse().ok()?;
                 let srcs: Option<Vec<String>> = f[3..].iter().map(|h| String::from_utf8(unhex(h)?).ok()).collect();
                 Some(run_one(&dir, stack, &srcs?))
             })()
@@ -756,7 +769,10 @@ pub fn run_c19w(o: &crate::Opts) {
     let mut rng = Rng::new(o.seed.wrapping_mul(9176) ^ (o.shard as u64) << 32 ^ 0xC19);
     // building blocks: valid, lexer failure, failure after labels were recorded (parser, backpatch,
     // emission), sources sharing label names with their predecessors (defining or only using them)
-    let pool: [&str; 10] = [
+    let pool: [&str; 13] = [
+        "push r0\npop r1\nhalt\n",
+        "start call f\nhalt\nf rets\n",
+        "lea r0 pop\nhalt\npop .fill x0\n",
         "start add r0 r0 #1\nloop brnzp loop\nhalt\n",
         "loop add r0 r0 #1\nstart halt\n",
         "start add r0 r0 #1\n\"unterminated\n",
@@ -769,12 +785,14 @@ pub fn run_c19w(o: &crate::Opts) {
         "ld r1 data\nhalt\nhalt\ndata .fill x2\n",
     ];
     let sessions = if o.thorough { 6 } else { 1 };
-    let mut n = 0;
+    let mut n: u64 = 0;
     for _ in 0..sessions {
         let len = rng.range(3, 6) as usize;
         let srcs: Vec<String> = (0..len).map(|_| (*rng.pick(&pool)).to_string()).collect();
-        let obs = run_one(&dir, false, &srcs);
-        sink.put(&req_of(false, &srcs), &obs);
+        // the flag: absent, after the subcommand, before it
+        let stack = ((o.shard as u64 + n) % 3) as u8;
+        let obs = run_one(&dir, stack, &srcs);
+        sink.put(&req_of(stack, &srcs), &obs);
         n += 1;
     }
     let n_cases = sink.n;
